@@ -123,6 +123,9 @@ class SLock:
         self.held = True
         self.owner = tid
         self.s.trace.append((tid, f"acq {tid}"))
+        hook = getattr(self.s, "on_acquire", None)
+        if hook is not None:
+            hook(tid)
 
     def __exit__(self, et, ev, tb):
         tid = self.s.tid()
@@ -131,6 +134,9 @@ class SLock:
         self.s.trace.append((tid, f"rel {tid}"))
         self.held = False
         self.owner = None
+        hook = getattr(self.s, "on_release", None)
+        if hook is not None:
+            hook(tid)
 
     # the rest of the threading.Lock interface: code that takes the lock with acquire()/release() instead of `with` is the same code
     def acquire(self, blocking=True, timeout=-1):
